@@ -12,6 +12,7 @@ mod expr;
 mod stmt;
 mod render;
 mod exprfam;
+mod schemafam;
 #[cfg(feature = "full")]
 mod valfam;
 
@@ -36,6 +37,7 @@ fn main() {
         "tpl" => exprfam::tplcase,
         "stmt" => exprfam::stmtcase,
         "hist" => exprfam::histcase,
+        "schema" => schemafam::schemacase,
         #[cfg(feature = "full")]
         "value" => valfam::valcase,
         #[cfg(feature = "full")]
